@@ -8,6 +8,7 @@
 import DDV.Gen.Lemmas.DslHirConfig
 import DDV.Gen.Lemmas.DslPerm
 import DDV.Gen.Lemmas.DslUnique
+import DDV.Gen.Lemmas.DslNoPanic
 import DDV.Props.C16Tree
 
 namespace DDV.Props.C16Hir
@@ -75,6 +76,15 @@ theorem duplicate_config_rejected (a b : Access) :
 /-- `start..=4294967295`: the inclusive end is incremented in `u32` (`mir_transform.rs:540`); with overflow checks
     (every debug build of a user's proc macro) that is a panic, not a rejection. -/
 theorem inclusive_end_overflow_panics : hirInclEnd 4294967295 = .error (.panic "add_overflow") := by rfl
+
+
+/-- **Whatever tree the grammar hands it, the DSL lowering reports every problem as an error** (a `syn::Error`, i.e. a
+    compile error in the user's build) and never panics - with the one exception the model made visible, the `u32`
+    overflow of an inclusive range that ends at 4294967295 (`inclusive_end_overflow_panics`). For all trees, not only
+    rendered ones. -/
+theorem dsl_lowering_reports_errors (d : HDevice) (s : Stop) (h : hirTransform d = .error s) :
+    (∃ k, s = frontErr k) ∨ s = .panic "add_overflow" :=
+  HirNoPanic.hirTransform_benign d s h
 
 /-- Two different front-end defects in one register (an address outside `i64` *and* a non-bool field with a
     single-bit address): the Rust reads the address first, and so do both routes of the model. -/
